@@ -349,6 +349,27 @@ func (k *c08Case) tsOptions() (map[string]any, map[string]any) {
 	return cl, call
 }
 
+// tsSharedDefaults: the client options as a caller writes them who builds several clients from ONE
+// `defaultHeaders` object (possibly empty) and gives each its own typed header values; the second result are
+// the typed options of such an other client (the runner builds it after the client under test, from the same
+// object; it makes no call).
+func tsSharedDefaults(cl map[string]any) (map[string]any, map[string]any) {
+	out, decoy := map[string]any{}, map[string]any{}
+	for k, v := range cl {
+		out[k] = v
+		if k != "defaultHeaders" {
+			decoy[k] = "other-client"
+		}
+	}
+	if len(decoy) == 0 {
+		return cl, nil
+	}
+	if _, ok := out["defaultHeaders"]; !ok {
+		out["defaultHeaders"] = map[string]any{}
+	}
+	return out, decoy
+}
+
 func (k *c08Case) goOptions(op map[string]any) {
 	var dh, ch, hd, hc [][2]string
 	for _, u := range k.hdrs {
@@ -551,7 +572,11 @@ func c08Run(td *tsrun.Dir, scs []*c08Schema) error {
 		var refs []ref
 		for _, k := range sc.cases {
 			cl, call := k.tsOptions()
+			cl, decoy := tsSharedDefaults(cl)
 			base := map[string]any{"svc": k.svcTS(), "rpc": k.rpcTS(), "base": k.tsBase(), "req": k.tsReq, "client_opts": cl, "call_opts": call, "url_props": k.urlProps}
+			if decoy != nil {
+				base["decoy_opts"] = decoy
+			}
 			a := map[string]any{"op": "ts_call", "canned": dummy}
 			t := map[string]any{"op": "ts_ts", "handler": map[string]any{"kind": "ok", "resp": k.tsResp}}
 			for kk, v := range base {
